@@ -37,7 +37,7 @@ Lemma parse_query_is_val : forall p, known_panic_class p = false -> is_val (pars
 Proof.
   intros [| |stmts] H; try reflexivity.
   destruct stmts as [|st rest]; [discriminate|].
-  destruct rest as [|st2 rest]; [|reflexivity].
+  destruct rest as [|st2 rest]; [|destruct st as [[?|] ? ?|]; reflexivity].
   destruct st as [b ob lc|]; [|reflexivity].
   destruct b as [s|]; [|reflexivity].
   cbn in H.
